@@ -816,6 +816,9 @@ impl ResSpace {
 // snippets can be placed in one program; `@` names are deliberately shared between the two snippets of a pair.
 
 const DECLS: &[&str] = &[
+    // a nested namespace that reuses the name of an outer one, with references from the enclosing namespace to the outer
+    // one spelled `::M::x` (added after a seeded change in qualified-name lookup was missed)
+    "namespace M$ { static const float pi$ = 3.0f; float twice$(float x) { return x * 2.0f; } enum K$ { K$_A, K$_B = 5 }; static int cnt$ = 0; }\nnamespace L$ { namespace M$ { float falloff$(float d) { return 1.0f / d; } }\nfloat shade$(float d) { ::M$::cnt$ = ::M$::cnt$ + 1; ::M$::K$ k = ::M$::K$_B; return M$::falloff$(d) * ::M$::twice$(::M$::pi$) + (float)k; } }\nfloat useNs$(float d) { return L$::shade$(d) + M$::twice$(d); }",
     // structs, methods
     "struct P$ { float x; float y; float len2() { return x * x + y * y; } float dot(P$ o) { return x * o.x + y * o.y; } void scale(float s) { x *= s; y *= s; } };\nfloat useP$(P$ p) { p.scale(2.0); return p.len2() + p.dot(p); }",
     "struct A$ { float a; int b[2]; float4 c; float3x3 m; };\nstruct B$ { A$ inner; A$ list[2]; uint n; };\nfloat useAB$(B$ v) { return v.inner.a + v.list[1].c.x + v.inner.m[0][1]; }",
